@@ -102,15 +102,7 @@ def run(ctx):
                                      kind=kind, cell=cell, label=label):
                             one_cell(ctx, it, T, p, evt, sta, role, timer_running, kind, cell, label,
                                      sta_val, evt_val, sock_cls)
-                        paths = verify.run_paths(it, verify.Explorer(), run_cell, label)
-                        res.paths += len(paths)
-                        res.cases += 1
-                        for p in paths:
-                            res.obligations.extend(p.obligations)
-                            if getattr(p, 'outcome', None) == 'normal':
-                                res.normal_paths += 1
-    ctx.results.append(res)
-    ctx.obligations.extend(res.obligations)
+                        ctx.add_exploration(label, run_cell, res)
     ctx.extra['cells'] = {'total': 247, 'defined_by_standard': cells_defined, 'exhaustive': True}
     ctx.extra['exhaustive'] = True
     ctx.assumptions += [
